@@ -472,8 +472,12 @@ def runCase (c : Case) : Verdict := Id.run do
             if o.now > e.at_ + e.lat then v := { v with cov := addCov v.cov "late" }
             -- same as the synchronous API
             match e.kind with
-            | .cancel _ =>
-              if res != 0 && res != ENOENT && res != ECANCELED then oErr := some s!"cancel completed with {res}"
+            | .cancel t =>
+              -- an SQE with a rejected flag completes with -EINVAL and has no other effect, whatever the opcode
+              if e.link then
+                if res != EINVAL && res != ECANCELED then
+                  oErr := some s!"cancel {ud} of {t} carries a rejected flag but completed with {res}, not -EINVAL"
+              else if res != 0 && res != ENOENT && res != ECANCELED then oErr := some s!"cancel completed with {res}"
             | k =>
               if e.link then
                 if res != EINVAL && res != ECANCELED then oErr := some s!"entry with rejected flags completed with {res}, not -EINVAL"
@@ -502,7 +506,7 @@ def runCase (c : Case) : Verdict := Id.run do
           -- completions that may be visible now: deadline passed, or produced at submit time
           -- (rejected flags, cancels, targets of a submitted cancel)
           let targeted := fun (e : OEntry) => o.entries.toList.any fun c =>
-            c.ring == ring && c.submitted && (match c.kind with | .cancel t => t == e.ud | _ => false)
+            c.ring == ring && c.submitted && !c.link && (match c.kind with | .cancel t => t == e.ud | _ => false)
           let due := out_.filter fun e => e.at_ + e.lat ≤ o.now
           let maybe := out_.filter fun e => e.at_ + e.lat ≤ o.now || targeted e
           if r.dead || r.dropped then
@@ -551,7 +555,7 @@ def runCase (c : Case) : Verdict := Id.run do
         else if !(r.dead || r.dropped) then
           let out_ := o.entries.toList.filter fun e => e.ring == ring && e.submitted && !e.done
           let targeted := fun (e : OEntry) => o.entries.toList.any fun c =>
-            c.ring == ring && c.submitted && (match c.kind with | .cancel t => t == e.ud | _ => false)
+            c.ring == ring && c.submitted && !c.link && (match c.kind with | .cancel t => t == e.ud | _ => false)
           let due := out_.filter fun e => e.at_ + e.lat ≤ o.now
           let maybe := out_.filter fun e => e.at_ + e.lat ≤ o.now || targeted e
           if obsMain == "ready" && maybe.isEmpty then
@@ -595,9 +599,10 @@ def runCase (c : Case) : Verdict := Id.run do
         if let some r := o.rings[e.ring]? then
           if !r.dead && !r.dropped && e.done && e.res == ECANCELED then
             let by_ := o.entries.toList.any fun c =>
-              c.ring == e.ring && c.submitted && c.seq != e.seq && (match c.kind with | .cancel t => t == e.ud | _ => false) &&
+              c.ring == e.ring && c.submitted && c.seq != e.seq && !c.link &&
+              (match c.kind with | .cancel t => t == e.ud | _ => false) &&
               (c.res == 0 || c.res == ECANCELED)
-            if !by_ then oErr := some s!"user_data {e.ud} completed with -ECANCELED but no successful cancel targeted it"
+            if !by_ then oErr := some s!"user_data {e.ud} completed with -ECANCELED but no successful cancel without rejected flags targeted it"
     | _ => pure ()
     o := { o with opIdx := o.opIdx + 1 }
     if let some e := oErr then
